@@ -1275,6 +1275,21 @@ let run_pc_ipa c =
        let nops = int1 c "nops" in
        let recs = Array.make nops None in
        let tape_of k = if has c k then fs_of c k else [] in
+       let brecs = Array.make nops None in
+       let cmpz a b = Z.compare (ofz a) (ofz b) in
+       (* query set and evaluations in BTreeSet / BTreeMap order; value deltas by position in the map, one evaluation dropped *)
+       let ipa_qs_ev tr3 deltas drop =
+         let qs = List.sort_uniq (fun (l1, (p1, z1)) (l2, (p2, z2)) ->
+             let r = Z.compare l1 l2 in if r <> 0 then r else let r = Z.compare p1 p2 in if r <> 0 then r else compare (List.map ofz z1) (List.map ofz z2))
+             (List.map (fun (i, zl, pj) -> (lps.(i).Marlin.lp_label, (nlabel zl, [ pts.(pj) ]))) tr3) in
+         let tbl = Hashtbl.create 16 in
+         List.iter (fun (i, _, pj) -> Hashtbl.replace tbl (Z.to_string lps.(i).Marlin.lp_label ^ "@" ^ f_to_str pts.(pj))
+                       ((lps.(i).Marlin.lp_label, [ pts.(pj) ]), Poly.eval fo lps.(i).Marlin.lp_poly pts.(pj))) tr3;
+         let ev = Hashtbl.fold (fun _ v acc -> v :: acc) tbl [] in
+         let evm = List.sort (fun ((l1, z1), _) ((l2, z2), _) -> let r = Z.compare l1 l2 in if r <> 0 then r else cmpz (List.hd z1) (List.hd z2)) ev in
+         let evm = List.mapi (fun idx (kx, v) -> (kx, List.fold_left (fun acc (kk, dd) -> if kk = idx then fo.Field.fadd acc dd else acc) v deltas)) evm in
+         let evm = match drop with Some kk -> List.filteri (fun idx _ -> idx <> kk) evm | None -> evm in
+         (qs, evm) in
        for t = 0 to nops - 1 do
          let k x = Printf.sprintf "%s.%d" x t in
          match get c (k "op") with
@@ -1309,6 +1324,43 @@ let run_pc_ipa c =
                  obs1 (k "nvchal") "N" (string_of_int (List.length vchal - List.length vrest))
                | _ -> obs1 (k "check") "S" "refused");
               recs.(t) <- Some (pj, sel, values, pf)
+            | _ -> ())
+         | [ "batch"; sq ] ->
+           let chal = fs_of c (k "chal") and vchal = fs_of c (k "vchal") in
+           let tr3 = triples3 (get c ("qs." ^ sq)) in
+           let ident = List.init n (fun i -> i) in
+           let pperm = if has c (k "pperm") then List.map int_of_string (get c (k "pperm")) else ident in
+           let vperm = if has c (k "vperm") then List.map int_of_string (get c (k "vperm")) else ident in
+           let otape = if has c (k "otape") then fs_of c (k "otape") else [] in
+           let (qs, evm) = ipa_qs_ev tr3 [] None in
+           obs (k "evals") "F" (fs_to (List.map snd evm));
+           let items = List.map (fun i -> (lps.(i).Marlin.lp_label, (((lps.(i), lps.(i).Marlin.lp_bound), fst cs.(i)), snd cs.(i)))) pperm in
+           let r = IPABatch.i_batch_open fo dn items qs ((chal, tape_of (k "hchal")), Some otape) in
+           obs1 (k "open") "S" (class_of r);
+           (match r with
+            | Result.Ok (pfl, ((rest, _), rng')) ->
+              obs1 (k "nchal") "N" (string_of_int (List.length chal - List.length rest));
+              obs1 (k "open_draws") "N" (string_of_int (List.length otape - (match rng' with Some l -> List.length l | None -> 0)));
+              obs1 (k "nproofs") "N" (string_of_int (List.length pfl));
+              List.iteri (fun g pf ->
+                  let nm = Printf.sprintf "pf.%d.%d" t g in
+                  obs1 (nm ^ ".rounds") "N" (string_of_int (List.length pf.IPA.ip_l));
+                  if pf.IPA.ip_l <> [] then begin
+                    obs (nm ^ ".l") "L:basis" (List.map gv_tok pf.IPA.ip_l);
+                    obs (nm ^ ".r") "L:basis" (List.map gv_tok pf.IPA.ip_r)
+                  end;
+                  obs1 (nm ^ ".key") "L:basis" (gv_tok pf.IPA.ip_key);
+                  obs1 (nm ^ ".c") "F" (f_to_str pf.IPA.ip_c);
+                  (match pf.IPA.ip_hcomm with Some h -> obs1 (nm ^ ".hcomm") "L:basis" (gv_tok h) | None -> ());
+                  obs1 (nm ^ ".rand") "F" (f_opt_to_str pf.IPA.ip_rand)) pfl;
+              let cml = List.map (fun i -> (lps.(i).Marlin.lp_label, (fst cs.(i), lps.(i).Marlin.lp_bound))) vperm in
+              (match IPABatch.i_batch_check fo dn cml qs evm pfl vchal (tape_of (k "vhchal")) (tape_of (k "vtape")) with
+               | Result.Ok (((b, vrest), _), draws) ->
+                 obs1 (k "check") "S" (if b then "accept" else "reject");
+                 obs1 (k "nvchal") "N" (string_of_int (List.length vchal - List.length vrest));
+                 obs1 (k "check_draws") "N" (string_of_int (int_of_nat draws))
+               | _ -> obs1 (k "check") "S" "refused");
+              brecs.(t) <- Some (tr3, pfl, vperm)
             | _ -> ())
          | _ -> ()
        done;
@@ -1358,7 +1410,48 @@ let run_pc_ipa c =
                if !ok then
                  obs1 name "S" (decision (match IPA.i_check fo dn (List.map (fun i -> cms.(i)) !sel) pts.(!pj) !values !pf mchal mh with
                      | Result.Ok ((b, _), _) -> Result.Ok b | Result.Err e -> Result.Err e | Result.Panic -> Result.Panic))
-             | None -> ()
+             | None ->
+               (match brecs.(t) with
+                | Some (tr3, pfl, vperm) ->
+                  let tr3 = ref tr3 and pfl = ref pfl and vperm = ref vperm and ok = ref true in
+                  let deltas = ref [] and drop = ref None in
+                  (match kind with
+                   | "value" -> deltas := [ (int_of_string (arg 0), f_of_str (arg 1)) ]
+                   | "cancel" -> let dd = f_of_str (arg 2) in
+                     deltas := [ (int_of_string (arg 0), dd); (int_of_string (arg 1), fo.Field.fopp dd) ]
+                   | "comm_swap" -> let i = int_of_string (arg 0) and j = int_of_string (arg 1) in cms.(i) <- (fst cs.(j), snd cms.(i))
+                   | "proofs" ->
+                     let a () = int_of_string (arg 1) and b () = int_of_string (arg 2) in
+                     let len = List.length !pfl in
+                     (match arg 0 with
+                      | "perm" -> if a () < len && b () < len then begin
+                          let x = List.nth !pfl (a ()) and y = List.nth !pfl (b ()) in
+                          pfl := List.mapi (fun i p -> if i = a () then y else if i = b () then x else p) !pfl end else ok := false
+                      | "trunc" -> if a () < len then pfl := List.filteri (fun i _ -> i < a ()) !pfl else ok := false
+                      | "dup" -> if a () < len && b () < len then begin
+                          let x = List.nth !pfl (a ()) in pfl := List.mapi (fun i p -> if i = b () then x else p) !pfl end else ok := false
+                      | "empty" -> pfl := []
+                      | "extend" -> if len > 0 then pfl := !pfl @ [ List.nth !pfl (len - 1) ] else ok := false
+                      | _ -> ok := false)
+                   | "sponge_pre" -> ()
+                   | "vperm" -> vperm := List.map int_of_string args
+                   | "drop_query" -> let kk = int_of_string (arg 0) in
+                     if kk < List.length !tr3 then tr3 := List.filteri (fun i _ -> i <> kk) !tr3 else ok := false
+                   | "drop_eval" -> drop := Some (int_of_string (arg 0))
+                   | "drop_comm" -> let i = int_of_string (arg 0) in vperm := List.filter (fun x -> x <> i) !vperm
+                   | _ -> ok := false);
+                  if !ok then begin
+                    let (qs, evm0) = ipa_qs_ev !tr3 [] None in
+                    let nk = List.length evm0 in
+                    if List.exists (fun (kk, _) -> kk >= nk) !deltas || (match !drop with Some kk -> kk >= nk | None -> false) then ()
+                    else begin
+                      let (_, evm) = ipa_qs_ev !tr3 !deltas !drop in
+                      let cml = List.map (fun i -> (lps.(i).Marlin.lp_label, cms.(i))) !vperm in
+                      obs1 name "S" (decision (match IPABatch.i_batch_check fo dn cml qs evm !pfl mchal mh (tape_of (Printf.sprintf "vtape.%d" t)) with
+                          | Result.Ok (((b, _), _), _) -> Result.Ok b | Result.Err e -> Result.Err e | Result.Panic -> Result.Panic))
+                    end
+                  end
+                | None -> ())
            end)
          (indexed c "mut")
      | _ -> ())
